@@ -12,8 +12,8 @@ tie:    system level, production thread-safe libsnoopy.so from the snapshot unde
 import json, os
 from vlib.core import VERIF, CheckError
 from vlib.syslevel import run_many
-from vlib.conclevel import run_mt, calibrate
-from checks.c09 import setup_conc, query_handlers, model_lines, corpus_cases, new_violations, coqchk_props, AREA
+from vlib.conclevel import run_mt, calibrate, observed_locks
+from checks.c09 import setup_conc, query_handlers, query_unprotected, model_lines, corpus_cases, new_violations, coqchk_props, AREA
 
 OUTPUTS = [
     ("file", b'[snoopy]\noutput = file:@D@/out.log\n'),
@@ -60,9 +60,16 @@ def check(run):
         plans = []
         calib = {}
         for (name, ini) in OUTPUTS:
-            ops, K, _ = calibrate(run, lib, ini, "calib-" + name)
-            calib[name] = (ops, K)
-            for k in range(1, K + 1):
+            try:
+                ops, _, _ = calibrate(run, lib, ini, "calib-" + name)
+            except CheckError as e:
+                if ok:
+                    raise
+                ops = ""
+            # the windows are the OBSERVED acquisitions of every lock (any pthread mutex, rwlock, flock), not only the repository mutex
+            locks = observed_locks(run, lib, ini, "locks-" + name)
+            calib[name] = (ops, len(locks), locks)
+            for k in range(1, len(locks) + 1):
                 plans.append((name, ini, ops, k, 0))
                 if name == "file" or not quick:
                     plans.append((name, ini, ops, k, 1))
@@ -74,8 +81,13 @@ def check(run):
             if f[1] in calib and 1 <= int(f[2]) <= calib[f[1]][1]:
                 first.append((f[1], inis[f[1]], calib[f[1]][0], int(f[2]), int(f[3])))
         plans = first + [p for p in plans if p not in first]
-        pred_lines = ["fork\t%s\t%d" % (ops, k) for (_, _, ops, k, _) in plans]
-        preds = model_lines(run, pred_lines, "fork-pred") if hs["known"] else None
+        def repo_index(name, k):
+            """k-th observed acquisition -> its index among the acquisitions of the repository mutex (the model's windows), or 0"""
+            locks = calib[name][2]
+            return len([1 for (kind, _) in locks[:k] if kind == "m"]) if locks[k - 1][0] == "m" else 0
+        pred_idx = [i for i, (name, _, ops, k, _) in enumerate(plans) if ops and repo_index(name, k)]
+        pred_out = model_lines(run, ["fork\t%s\t%d" % (plans[i][2], repo_index(plans[i][0], plans[i][3])) for i in pred_idx], "fork-pred") if (hs["known"] and pred_idx) else []
+        preds = dict(zip(pred_idx, pred_out))
 
         def job(a):
             i, (name, ini, ops, k, g) = a
@@ -93,8 +105,10 @@ def check(run):
                 return
             seen.add(sig)
             name, ini, ops, k, g = plans[i]
-            rep = {"failing_input": {"mode": "fork", "output": name, "lock_window": k, "grandchild": g}, "mode": "fork", "output": name, "window": k, "grandchild": g,
-                   "ini": ini.decode(), "ops": ops, "observed": o}
+            lk = calib[name][2][k - 1] if k - 1 < len(calib[name][2]) else ("?", "?")
+            rep = {"failing_input": {"mode": "fork", "output": name, "lock_window": k, "lock": {"m": "repository mutex", "M": "another pthread mutex", "r": "rwlock (read)", "w": "rwlock (write)", "f": "flock"}.get(lk[0], lk[0]),
+                                     "acquired_in": lk[1], "grandchild": g},
+                   "mode": "fork", "output": name, "window": k, "grandchild": g, "ini": ini.decode(), "ops": ops, "observed": o, "locks_observed": ["%s@%s" % x for x in calib[name][2]]}
             if extra:
                 rep.update(extra)
             run.violation(sig, kind, detail, rep)
@@ -108,14 +122,16 @@ def check(run):
                 viol("fork:caller-died:%s" % o["status"], "crash", "fork run (output %s, window %d) ended with status %s: %s" % (name, k, o["status"], err), i, o)
                 continue
             if o["child"] != "completes":
-                viol("fork:child-blocked" if o["child"] == "blocks" else "fork:child-%s" % o["child"], "timeout" if o["child"] == "blocks" else "crash",
-                     "a second thread holds the repository mutex in lock window %d of its wrapped call (output %s); the child forked at that instant %s "
-                     "(5 s alarm) in its own exec call" % (k, name, "never returns" if o["child"] == "blocks" else "ends with " + str(o["child"])), i, o)
+                other = calib[name][2][k - 1][0] != "m"
+                viol(("fork:child-blocked" if o["child"] == "blocks" else "fork:child-%s" % o["child"]) + (":lock-outside-the-handlers" if other else ""), "timeout" if o["child"] == "blocks" else "crash",
+                     "a second thread has just made the %d-th lock acquisition of its wrapped call (%s, taken in %s; output %s); the child forked at that instant %s "
+                     "(5 s alarm) in its own exec call" % (k, {"m": "the repository mutex", "M": "a pthread mutex that is NOT the repository mutex", "f": "a flock"}.get(calib[name][2][k - 1][0], "a lock"),
+                                                           calib[name][2][k - 1][1], name, "never returns" if o["child"] == "blocks" else "ends with " + str(o["child"])), i, o)
             if g and o["child"] == "completes" and o["grandchild"] != "completes":
                 viol("fork:grandchild-blocked", "timeout", "the child's own child does not complete its exec call (output %s, window %d): %s" % (name, k, o["grandchild"]), i, o)
             if not o["parent_call"]:
                 viol("fork:parent-affected", "spec_violation", "after the fork the parent's forking thread does not complete a further exec call (output %s, window %d)" % (name, k), i, o)
-            if preds:
+            if i in preds:
                 p = preds[i].split("\t")
                 want_fork, want_child, want_parent = p[1], p[2], p[3]
                 if (o["fork"], o["child"]) != (want_fork, want_child) and o["child"] == "completes":
@@ -144,18 +160,20 @@ def check(run):
             raise
         run.notes.append("system-level stage stopped on this tree: %s" % str(e)[:500])
     plans, calib, results, nwin, ro = st["plans"], st["calib"], st["results"], st["nwin"], st["ro"]
+    if not ok:
+        run.notes.append("static-storage objects not classified as protected / lock objects: %s" % query_unprotected(run))
     if not ok and not new_violations(run):
         run.violation("proof:%s" % failed, "proof", "proof obligation no longer checks: %s\n%s" % (failed, log[-1500:]), {"theorem": failed, "coq_log": log[-3000:]})
     chk = coqchk_props(run, "Properties_C10") if (ok and not quick) else None
     run.coverage.update({
         "evaluations": len(results) + 1,
         "distinct_nontrivial": len(set((n, k, g) for (n, _, _, k, g) in plans)) + 1,
-        "rule": "every lock window of a wrapped call (from a traced run: %s) x output types %s; children of children for %s; a second thread parked right after its k-th acquisition, "
+        "rule": "every lock acquisition OBSERVED in a wrapped call (any pthread mutex, rwlock, flock; from a traced run: %s) x output types %s; children of children for %s; a second thread parked right after its k-th acquisition, "
                 "fork attempted, the parked thread released only after the prepare handler asked for the mutex or fork() returned; child's exec under a 5 s alarm; "
                 "outcome compared with the model's fork experiment for the same window; plus one fork that begins before the one-time initialisation; distinct = (output, window, grandchild) triples"
                 % ({n: v[1] for n, v in calib.items()}, [n for n, _ in OUTPUTS], "output file" if quick else "every output"),
         "samples": [{"output": plans[0][0], "window": plans[0][3], "observed": results[0][1]}] if results else [],
-        "distribution": {"windows_run": nwin, "lock_windows": {n: v[1] for n, v in calib.items()}, "handlers": hs,
+        "distribution": {"windows_run": nwin, "lock_windows": {n: v[1] for n, v in calib.items()}, "other_locks": {n: [x for x in v[2] if x[0] != "m"] for n, v in calib.items()}, "handlers": hs,
                          "fork_delayed": len([1 for (_, o, _) in results if o["fork"] == "delayed"]), "fork_immediate": len([1 for (_, o, _) in results if o["fork"] == "immediate"]),
                          "child_completes": len([1 for (_, o, _) in results if o["child"] == "completes"]), "first_call_race_child": ro["child"], "coqchk": chk},
         "traces_validated_against_impl": len(results) + 1,
